@@ -80,6 +80,16 @@ def run(tier, seed, replay=None):
         cases.append({"id": cid, "settings": {"struct_builder": j % 2 == 1}, "history": [{"op": "root", "schema": {"definitions": defs}}],
                       "opts": {"has_impl": False}})
         meta[cid] = {"settings": cases[-1]["settings"], "doc": {"definitions": defs}}
+    for j, mt in enumerate([None, "::std::collections::BTreeMap", "::vrt::support::VMap"]):
+        defs = {"Counts": {"type": "object", "propertyNames": True, "additionalProperties": {"type": "integer"}},
+                "Names": {"type": "object", "propertyNames": {}, "additionalProperties": {"type": "string"}},
+                "Holder": {"type": "object", "properties": {"c": {"$ref": "#/definitions/Counts"},
+                                                            "inline": {"type": "object", "propertyNames": True,
+                                                                       "additionalProperties": {"type": "boolean"}}}}}
+        st = {"map_type": mt} if mt else {}
+        cid = "km%02d" % j
+        cases.append({"id": cid, "settings": st, "history": [{"op": "root", "schema": {"definitions": defs}}], "opts": {"has_impl": False}})
+        meta[cid] = {"settings": st, "doc": {"definitions": defs}}
     for j, req in enumerate([["PartialOrd"], ["PartialEq"], ["Hash"], ["Ord"], ["Eq"], ["PartialOrd", "Hash"]]):
         defs = {"Label": {"type": "string"}, "Code": {"type": "string", "minLength": 1, "maxLength": 8},
                 "Level": {"type": "string", "enum": ["lo", "hi"]}, "Key": {"type": "string", "pattern": "^[a-z]+$"},
